@@ -20,6 +20,7 @@ RULE = (
 )
 ASSUMPTIONS = ["dask is absent: chunks=None; the advertised chunking is observed through .encoding"]
 BUDGET = {"quick": 120, "thorough": 1500}
+JOBS = {"quick": 4, "thorough": 16}
 
 
 def rpcs_for(lines):
@@ -56,7 +57,7 @@ def all_rpc_cases():
 
 
 def plan(tier):
-    n = 70 if tier == "quick" else 20000
+    n = 240 if tier == "quick" else 20000
     return [
         {"kind": "enum", "name": "all-rpc", "cases": all_rpc_cases, "exhaustive": True},
         {"kind": "hyp", "name": "pairs", "strategy": pair_cases(), "examples": n},
